@@ -117,9 +117,19 @@ def run_threaded(sc):
                     return None
             return rxfn0
 
+        fault = sc.get('fault')         # {'side': i, 'kind': 'drop' | 'dup', 'n': k}: the k-th frame emitted by layer i is lost / doubled
+        emitted_n = {0: 0, 1: 0}
+
         def mk_tx(i):
             def txfn(m):
                 jitter()
+                k = emitted_n[i]
+                emitted_n[i] = k + 1
+                if fault and fault['side'] == i and fault['n'] == k:
+                    sc['_fault_frame'] = bytes(m.data)
+                    if fault['kind'] == 'drop':
+                        return
+                    q[1 - i].put(m)
                 q[1 - i].put(m)
             return txfn
         for i, ad in ((0, a), (1, b)):
@@ -246,6 +256,14 @@ def run_threaded(sc):
             break
         if sc.get('abort_variant') and not any(t.is_alive() for t in threads):
             break
+        if sc.get('fault') and not any(t.is_alive() for t in threads) and time.time() > deadline - 60 + 0.3:
+            # a message may legitimately be missing: wait until both layers are idle again (timeouts are short in these scenarios)
+            if not any(L.transmitting() or L.is_rx_active() for L in layers) and all(L.tx_queue.empty() for L in layers):
+                time.sleep(0.05)
+                if not any(L.transmitting() or L.is_rx_active() for L in layers):
+                    break
+            if time.time() > deadline - 60 + sc.get('fault_wait_s', 8):
+                break
         time.sleep(0.002)
     time.sleep(0.02)
     for i in (0, 1):
@@ -255,6 +273,7 @@ def run_threaded(sc):
                 break
             received[i].append(bytes(r))
     stop_flag.set()
+    sc['_idle_end'] = [not (L.transmitting() or L.is_rx_active()) for L in layers] if sc.get('fault') else None
     with rec.lock:
         cut = len(rec.log)
     t0 = time.time()
